@@ -829,3 +829,153 @@ def model_exhibits_f4():
     with vlib.Lock("coq"):
         b = vlib.coq_build(["SchedX/XF4Refuted.vo"], timeout=900)
     return b["ok"]
+
+
+# ---------------------------------------------------------------------------
+# heap accounting (finding F3, C13x)
+# ---------------------------------------------------------------------------
+def build_heapcount():
+    src = os.path.join(vlib.VERIF, "harness", "schedx_heapcount.c")
+    so = os.path.join(vlib.WORK, "bin", "schedx_heapcount.so")
+    os.makedirs(os.path.dirname(so), exist_ok=True)
+    dig = hashlib.sha256(open(src, "rb").read()).hexdigest()[:16]
+    stamp = so + ".stamp"
+    if os.path.exists(so) and os.path.exists(stamp) and open(stamp).read() == dig:
+        return so
+    with vlib.Lock("build-schedx-heapcount"):
+        rc, out, err = vlib.sh(["gcc", "-O2", "-shared", "-fPIC", "-o", so + ".tmp", src, "-ldl"], timeout=120)
+        if rc != 0:
+            raise vlib.BuildError("schedx_heapcount.so does not compile:\n" + (out + err)[-2000:])
+        os.replace(so + ".tmp", so)
+        with open(stamp, "w") as f:
+            f.write(dig)
+    return so
+
+
+def many_candidates(rng, k, post):
+    """A valid stream of k small blocks, each with a fake block header followed by
+    `post` zero selectors (a candidate that is overtaken by the parser)."""
+    w = BW()
+    w.put(24, 0x425A68)
+    w.put(8, 0x39)
+    comb = 0
+    plain = b""
+    for _ in range(k):
+        ch = rand_text(rng, 60)
+        toks = [[0]] * 20 + tokenize(fake_header_bits(), 6) + [[0]] * post
+        c = put_block(w, ch, nt=6, extra_tokens=toks)
+        comb = (((comb << 1) | (comb >> 31)) & 0xFFFFFFFF) ^ c
+        plain += ch
+    w.put(24, 0x177245)
+    w.put(24, 0x385090)
+    w.put(32, comb)
+    w.align()
+    return Crafted("many-%d-%d" % (k, post), w.bytes(), plain, True, "many")
+
+
+def heap_run(exe, c, n, seed, ig, workdir, klass=72):
+    so = build_heapcount()
+    os.makedirs(workdir, exist_ok=True)
+    tf = tempfile.NamedTemporaryFile(dir=workdir, prefix="heap", suffix=".log", delete=False)
+    tf.close()
+    env = hook_env(seed=seed, ig=ig)
+    env.update({"LD_PRELOAD": so, "SCHEDX_HEAP_LOG": tf.name, "SCHEDX_HEAP_CLASS": str(klass)})
+    rc, out, err = run_lbzip2(exe, c.data, ["-dc", "-n%d" % n], env=env, timeout=120)
+    try:
+        txt = open(tf.name).read()
+    finally:
+        os.unlink(tf.name)
+    m = re.search(r"HEAP live=(\d+) peak=(\d+) class_live=(-?\d+) class_total=(\d+)", txt)
+    return rc, out, err.decode("latin-1"), (tuple(int(x) for x in m.groups()) if m else None)
+
+
+def hunt_f3(check, runs=40):
+    """Finding F3: unord_blk records (72 bytes) of dropped speculative jobs are never freed."""
+    from concurrent.futures import ThreadPoolExecutor
+    exe = vlib.build_lbzip2("rel")
+    work = os.path.join(check.work, "heap")
+    out = []
+    worst = None
+    for k, post in ((8, 400), (24, 1500)):
+        c = many_candidates(check.rng, k, post)
+        with ThreadPoolExecutor(max_workers=max(2, vlib.NCPU // 2)) as ex:
+            res = list(ex.map(lambda s: heap_run(exe, c, 8, s, 64, work), range(runs)))
+        for rc, o, e, h in res:
+            if rc == 0 and h and h[2] > 0 and (worst is None or h[2] > worst[0]):
+                worst = (h[2], c, k, post)
+    if worst:
+        n, c, k, post = worst
+        out.append(Violation("F3-unord-blk-leak",
+                             "valid input with %d overtaken candidates: %d unord_blk records (72 bytes each) still allocated at exit "
+                             "(`LBZIP2_VERIF_IN_GRANUL=64 lbzip2 -dc -n8`, malloc-counting LD_PRELOAD); the count grows with the number of candidates" % (k, n),
+                             {"input_hex": c.data.hex(), "n": 8, "in_granul": 64, "flavor": "rel", "kind": "f3", "leaked_blocks": n}))
+    return out
+
+
+# ---------------------------------------------------------------------------
+# entry points for C11 / C13 (decompression part)
+# ---------------------------------------------------------------------------
+def correspond_x(check):
+    """Trace replay aimed at the scheduler itself: block counts 0..40, multi-buffer block
+    outputs (tiny out_granul), spurious candidates, early EOF, failing blocks; n = 1..8."""
+    n = 50 if check.tier == "quick" else 500
+    corpus = [many_candidates(check.rng, 12, 300), craft_f4(50, 2000)]
+    cov = correspond_replay(check, n, corpus=corpus,
+                            kinds=["plain", "plain", "selzeros", "selbad", "garbage", "blkcrc", "trunc"])
+    # final-state conditions of complete runs (C11x_final) and leak indicator of the model
+    leaks = 0
+    for r in getattr(check, "replay_results", []):
+        f = r.get("final")
+        if f:
+            m = re.search(r"nrun=(\d+) nun=(\d+) nz=(\d+) ins=(\d+)", f)
+            if m and (int(m.group(1)) or int(m.group(3))):
+                check.broken.append(Broken("correspondence", "final state of the model has running tasks or zombie input blocks", f[:400]))
+            if m and int(m.group(2)):
+                leaks += 1
+            if " order= " not in f or " retr= " not in f or " emit= " not in f or " reord= " not in f or " inq= " not in f:
+                check.broken.append(Broken("correspondence", "queues not empty after a complete run", f[:400]))
+    cov["runs_ending_with_unfreed_unord_blk_in_model"] = leaks
+    return cov
+
+
+def direct_x(check):
+    """The scheduler properties on the binary: no deadlock (watchdog), hook assertions
+    (queue capacities, counters), order (output equals the plain text), heap bound."""
+    from concurrent.futures import ThreadPoolExecutor
+    viols = []
+    seen = set()
+    for r in getattr(check, "replay_results", []):
+        crash = classify_crash(r["rc"], r["err"])
+        c = r["spec"].c
+        key = None
+        if crash:
+            key = ("F4-stale-retrieve-job:%s" % r["spec"].flavor) if crash.startswith("F4") else "crash:" + crash.split(":")[0]
+            what = crash
+        elif c.valid and r["out"] != c.plain:
+            key, what = "order-or-content", "output differs from the plain text (blocks out of order or lost)"
+        if key and key not in seen:
+            seen.add(key)
+            viols.append(Violation(key, r["spec"].desc() + ": " + what, {
+                "input_hex": c.data.hex(), "n": r["spec"].n, "seed": r["spec"].seed, "in_granul": r["spec"].ig,
+                "out_granul": r["spec"].og, "flavor": r["spec"].flavor, "rc": r["rc"], "stderr": r["err"][-600:], "kind": "run"}))
+    # C13x: peak live heap against the bound B(n) computed from the regenerated slot formulas
+    exe = vlib.build_lbzip2("rel")
+    work = os.path.join(check.work, "heap")
+    big = many_candidates(check.rng, 40, 200)
+    peaks = {}
+    for n in (1, 2, 4, 8):
+        rc, o, e, h = heap_run(exe, big, n, 1, None, work)
+        if rc == 0 and h:
+            peaks[n] = h[1]
+            # 4n input blocks of 256 KiB, n decoders of ~3.6 MB + ~0.1 MB state, 16n output buffers of 900 kB (allocated lazily)
+            bound = 4 * n * 262144 + n * (4 * 900000 + 200000) + 16 * n * (900000 + 64) + 2_000_000
+            if h[1] > bound and "heap-bound" not in seen:
+                seen.add("heap-bound")
+                viols.append(Violation("heap-bound", "peak live heap %d bytes at n=%d exceeds B(n)=%d" % (h[1], n, bound),
+                                       {"input_hex": big.data.hex(), "n": n, "kind": "heap"}))
+    check.notes.append("direct_x: peak live heap by worker count (decompression): %s" % peaks)
+    return viols
+
+
+def search_x(check):
+    return hunt_f4(check, tries=120 if check.tier == "quick" else 400) + hunt_f3(check, runs=30 if check.tier == "quick" else 100)
